@@ -444,16 +444,30 @@ def _unparse(sx):
     return a.text
 
 
-def _lit(v, sort):
+def _lit(v, sort, dialect=None):
+    """A value in the notation of the reply of get-value.  The standard leaves the spelling to the solver; `dialect` picks
+    the ones of the solvers pySMT's text interface is used with: z3 (hexadecimal when the width allows, (/ 1.0 3.0)),
+    cvc5 (binary, (/ 1 3), (/ (- 1) 3)), indexed literals (_ bvN w)."""
     if sort == ("BOOL",):
         return "true" if v else "false"
     if sort == ("INT",):
         return str(v) if v >= 0 else "(- %d)" % -v
     if sort == ("REAL",):
         v = Fraction(v)
+        if dialect == "z3":
+            body = "%d.0" % abs(v.numerator) if v.denominator == 1 else "(/ %d.0 %d.0)" % (abs(v.numerator), v.denominator)
+            return body if v >= 0 else "(- %s)" % body
+        if dialect == "cvc5":
+            if v.denominator == 1:
+                return "%d.0" % v.numerator if v >= 0 else "(- %d.0)" % -v.numerator
+            return "(/ %s %d)" % (str(v.numerator) if v >= 0 else "(- %d)" % -v.numerator, v.denominator)
         body = "%d.0" % abs(v.numerator) if v.denominator == 1 else "(/ %d %d)" % (abs(v.numerator), v.denominator)
         return body if v >= 0 else "(- %s)" % body
     if sort[0] == "BV":
+        if dialect == "z3" and sort[1] % 4 == 0:
+            return "#x" + format(v, "0%dx" % (sort[1] // 4))
+        if dialect == "indexed":
+            return "(_ bv%d %d)" % (v, sort[1])
         return "#b" + format(v, "0%db" % sort[1])
     raise refsmt.SmtError("no literal for sort %s" % (sort,), unsupported=True)
 
@@ -521,7 +535,7 @@ class SimSolver(object):
                 asg = dict(("sym:" + k, v) for k, v in self.model.items())
                 try:
                     v = refsmt.evaluate(t, asg)
-                    parts.append("(%s %s)" % (_unparse(sx), _lit(v, so)))
+                    parts.append("(%s %s)" % (_unparse(sx), _lit(v, so, getattr(self, "dialect", None))))
                 except Exception as e:          # noqa - the simulator answers with an error like a solver would
                     self.out += '(error "cannot evaluate %s")\n' % _unparse(sx)
                     return
@@ -1021,6 +1035,74 @@ def _text_cost_job(_):
     if len(res) != 1 or res[0].kind != "valid":
         return ("unsupported", "%s %s" % (res[0].kind, str(res[0].detail)[:200]))
     return ("ok", res[0].detail)
+
+
+VALUE_MODEL = {"h8": 0xb5, "i8": 0xbb, "j8": 0x0b, "k8": 0xab, "l8": 0x5b, "m8": 0xff, "n8": 0, "h4": 0xb, "i4": 1, "h3": 5, "h16": 0xbeef, "j16": 0x0bb0,
+               "r1": Fraction(1, 3), "r2": Fraction(-1, 3), "r3": Fraction(5, 2), "r4": Fraction(2), "r5": Fraction(-2), "r6": Fraction(0),
+               "z1": -7, "z2": 0, "z3": 12}
+
+
+def _values_job(dialect):
+    """Model values in the notations solvers use for them: what get_value / get_model hand back is the reported value."""
+    shape = Shape(("lit", True, BOOL))
+    INT, REAL = ("INT",), ("REAL",)
+
+    def sort_of(nm):
+        return REAL if nm[0] == "r" else (INT if nm[0] == "z" else ("BV", int(nm[1:])))
+
+    def call(w, it, f0):
+        it.apply_decorators = {"pysmt.decorators.clear_pending_pop"}
+        logic = it.module_global(w.repo.modules["pysmt.logics"], "QF_AUFBVLIRA")
+        sim = SimSolver(["sat"] * 4, dict(VALUE_MODEL, gate=True))
+        sim.dialect = dialect
+        w.sim = sim
+        solver = it.instantiate(ClassRef(SMTLIB_SOLVER), [["sim"], w.env, logic], {})
+        syms = dict((nm, w.symbol(nm, sort_of(nm))) for nm in sorted(VALUE_MODEL))
+        for nm in sorted(syms):
+            so = sort_of(nm)
+            lit = w.app("BV", VALUE_MODEL[nm], so[1]) if so[0] == "BV" else (w.app("Real", VALUE_MODEL[nm]) if so == REAL else w.int_const(VALUE_MODEL[nm]))
+            it.call(it.getattr(solver, "add_assertion"), [w.app("Or", w.symbol("gate", ("BOOL",)), w.app("Equals", syms[nm], lit))])
+        out = []
+        r = it.call(it.getattr(solver, "solve"), [])
+        if r is not True:
+            out.append(("solve", "returns %r for the answer sat" % (r,)))
+        for nm in sorted(syms):
+            try:
+                v = it.call(it.getattr(solver, "get_value"), [syms[nm]])
+                got = w.npayload(v) if w.is_node(v) and w.opname(v).endswith("CONSTANT") else ("non-constant", sc.node_str(w, v) if w.is_node(v) else v)
+                if sort_of(nm)[0] == "BV" and isinstance(got, tuple) and len(got) == 2 and not isinstance(got[0], str):
+                    got = got[0] if got[1] == sort_of(nm)[1] else ("width", got)
+            except AbsRaise as ex:
+                got = ("raises", ex.cls_name)
+            if got != VALUE_MODEL[nm]:
+                out.append((nm, "get_value(%s) gives %r; the solver reported %s, i.e. %r" % (nm, got, _lit(VALUE_MODEL[nm], sort_of(nm), dialect), VALUE_MODEL[nm])))
+        try:
+            m = it.call(it.getattr(solver, "get_model"), [])
+            for nm in sorted(syms):
+                v = it.call(it.getattr(m, "get_value"), [syms[nm]])
+                got = w.npayload(v) if w.is_node(v) and w.opname(v).endswith("CONSTANT") else ("non-constant", sc.node_str(w, v) if w.is_node(v) else v)
+                if sort_of(nm)[0] == "BV" and isinstance(got, tuple) and len(got) == 2 and not isinstance(got[0], str):
+                    got = got[0] if got[1] == sort_of(nm)[1] else ("width", got)
+                if got != VALUE_MODEL[nm]:
+                    out.append((nm + "|model", "get_model()[%s] is %r; the solver reported %s, i.e. %r"
+                                % (nm, got, _lit(VALUE_MODEL[nm], sort_of(nm), dialect), VALUE_MODEL[nm])))
+        except AbsRaise as ex:
+            out.append(("model", "get_model raises %s%s" % (ex.cls_name, proc._args(ex))))
+        if sim.illegal:
+            out.append(("stream", "illegal command stream: %s" % sim.illegal[0]))
+        return out
+
+    def post(w, f, val, facts):
+        return proc.ProcResult(shape, "valid", val)
+    res = proc.run_proc(shape, call, post=post, services="full", max_paths=4, world_cls=SolverWorld,
+                        interp_kwargs={"max_steps": 20000000, "max_loop": 200000})
+    if len(res) != 1 or res[0].kind != "valid":
+        return (dialect, "unsupported", "%s %s" % (res[0].kind, str(res[0].detail)[:200]))
+    return (dialect, "ok", res[0].detail)
+
+
+def text_value_results(repo):
+    return [_values_job(d) for d in ("z3", "cvc5", "indexed", None)]
 
 
 def text_solver_cost(repo):
